@@ -73,6 +73,7 @@ func (c *Ctx) within(i, anc int) bool {
 // BinaryCmd operands (the pipeline or && || chain), and where its body starts.
 type hdocChain struct {
 	op, body   syntax.Pos
+	bodyEnd    syntax.Pos
 	stmt, root int
 }
 
@@ -103,6 +104,7 @@ func (c *Ctx) hdocChains() []hdocChain {
 		h := hdocChain{op: r.OpPos, stmt: stmt, root: root}
 		if r.Hdoc != nil {
 			h.body = r.Hdoc.Pos()
+			h.bodyEnd = r.Hdoc.End()
 		}
 		hds = append(hds, h)
 	}
@@ -261,6 +263,13 @@ var Classes = []Class{
 				cm, ok := it.Node.(*syntax.Comment)
 				if !ok {
 					return false
+				}
+				for _, h := range hds {
+					if h.body.IsValid() && !h.body.After(cm.Hash) && h.bodyEnd.After(cm.Hash) {
+						// inside a substitution in a here-document body:
+						// printed with the body
+						return false
+					}
 				}
 				for _, h := range hds {
 					if it.Parent == h.stmt {
